@@ -391,6 +391,13 @@ func gen(g *hx.Gen) {
 		}
 		return randClasses(g.Rng, n, 3)
 	}
+	// corpus: the three inputs (graph + vertex classes) on which CanonicalIsomorphFull panicked before commit a4bdb37
+	// (currentBest[:len(op.value)] beyond its capacity: stale singletonPrefixLength after a cut-off inside splitBin)
+	for _, c := range [][2]string{{"KOD[fB~~qOCO", "0,1,2,3,4,5,6,7,8,9|10,11"}, {"K`WkCf~~ogGO", "0,1,2,3,4,5,6,7|8,9|10,11"},
+		{"LaGQO]CgN~~}?g", "0,1,2,3,4,5,6,7,8,9,10,11|12"}} {
+		cls, _ := cx.ParseClasses(c[1])
+		emit("corpus", cx.MustGraph6(c[0]), cls)
+	}
 	// corpus: the two graphs that failed on the pinned tree, in the failing labelling
 	for _, c := range [][2]string{{"G|WW}K", "7,3,1,2,4,5,0,6"}, {"GhcqSK", "7,6,1,3,4,5,0,2"}} {
 		gr := cx.MustGraph6(c[0])
